@@ -102,16 +102,14 @@ def text(reg):
         '_left', 'runtime:_left', {**SELF, 'text': 'str', 'num_chars': 'int'}, self_class='ExcelInPython',
         ensures={
             'negative': 'implies(I(num_chars) < 0, result == "#ERROR!")',
-            'empty_text': 'implies(I(num_chars) >= 0 and slen(text) == 0, is_empty(result))',
-            'first_n': 'implies(I(num_chars) >= 0 and slen(text) > 0, is_str(result) and '
+            'first_n': 'implies(I(num_chars) >= 0, is_str(result) and '
                        'S(result) == substr(text, 0, min(I(num_chars), slen(text))))',
-        }, notes='first n characters, shorter at the end'))
+        }, notes='first n characters, shorter at the end, the empty text when nothing is selected'))
     reg.add(Contract(
         '_right', 'runtime:_right', {**SELF, 'text': 'str', 'num_chars': 'int'}, self_class='ExcelInPython',
         ensures={
             'negative': 'implies(I(num_chars) < 0, result == "#ERROR!")',
-            'empty_text': 'implies(I(num_chars) >= 0 and slen(text) == 0, is_empty(result))',
-            'last_n': 'implies(I(num_chars) >= 0 and slen(text) > 0, is_str(result) and '
+            'last_n': 'implies(I(num_chars) >= 0, is_str(result) and '
                       'S(result) == substr(text, slen(text) - min(I(num_chars), slen(text)), min(I(num_chars), slen(text))))',
         }, notes='last n characters, shorter at the start'))
     reg.add(Contract(
@@ -120,10 +118,9 @@ def text(reg):
         ensures={
             'start_below_1': 'implies(I(start_num) < 1, result == "#NUM!")',
             'negative_count': 'implies(I(start_num) >= 1 and I(num_chars) < 0, result == "#VALUE!")',
-            'beyond_end': 'implies(I(start_num) >= 1 and I(num_chars) >= 0 and I(start_num) > slen(text), is_empty(result))',
-            'n_from_k': 'implies(I(start_num) >= 1 and I(num_chars) >= 0 and I(start_num) <= slen(text), is_str(result) and '
-                        'S(result) == substr(text, I(start_num) - 1, min(I(num_chars), slen(text) - I(start_num) + 1)))',
-        }, notes='n characters from 1-based position k, shorter at the end'))
+            'n_from_k': 'implies(I(start_num) >= 1 and I(num_chars) >= 0, is_str(result) and '
+                        'S(result) == substr(text, I(start_num) - 1, max(0, min(I(num_chars), slen(text) - I(start_num) + 1))))',
+        }, notes='n characters from 1-based position k, shorter at the end, empty beyond it'))
 
 
 # ------------------------------------------------------------------------------------------------ C10
